@@ -12,6 +12,10 @@ import (
 type Ver struct {
 	Params []string `json:"params"`
 	Body   string   `json:"body"`
+	// Wrap: the binding forms the defun is written inside, outermost first,
+	// each without its closing parenthesis, e.g. "(let ((@a 50))"; the
+	// function body uses those variables (a closure).
+	Wrap []string `json:"wrap,omitempty"`
 }
 
 // Fn is one top-level function definition with the versions used for
@@ -381,6 +385,58 @@ func (g *gen) version(i, ver int) Ver {
 		sc.calls = append(sc.calls, j)
 	}
 	d := 2 + g.r.IntN(2)
+	// one definition in three is written inside let / let* / nested lets and
+	// uses their variables; half of those variables carry a name that callers
+	// use for their own parameters
+	var wrap []string
+	var cvars []string
+	if g.r.IntN(3) == 0 {
+		own := map[string]bool{"@n": true, "@m": true}
+		for _, p := range ps {
+			own[p] = true
+		}
+		name := func() string {
+			if g.r.IntN(2) == 0 {
+				for tries := 0; tries < 6; tries++ {
+					c := paramNames[g.r.IntN(len(paramNames))][g.r.IntN(3)]
+					if !own[c] {
+						own[c] = true
+						return c
+					}
+				}
+			}
+			return g.fresh()
+		}
+		v1, v2 := name(), name()
+		switch g.r.IntN(4) {
+		case 0:
+			wrap = []string{fmt.Sprintf("(let ((%s %d))", v1, 10+g.r.IntN(90))}
+			cvars = []string{v1}
+		case 1:
+			wrap = []string{fmt.Sprintf("(let ((%s %d) (%s %d))", v1, 10+g.r.IntN(90), v2, 10+g.r.IntN(90))}
+			cvars = []string{v1, v2}
+		case 2:
+			wrap = []string{fmt.Sprintf("(let* ((%s %d) (%s (+ %s %d)))", v1, 10+g.r.IntN(90), v2, v1, 1+g.r.IntN(9))}
+			cvars = []string{v1, v2}
+		default:
+			wrap = []string{fmt.Sprintf("(let ((%s %d))", v1, 10+g.r.IntN(90)), fmt.Sprintf("(let ((%s (* %s 2)))", v2, v1)}
+			cvars = []string{v1, v2}
+		}
+		for _, cv := range cvars {
+			sc = sc.with(cv, false)
+		}
+	}
+	// closed makes the result depend on the closed-over variables
+	closed := func(e string) string {
+		for _, cv := range cvars {
+			if s.ret == "int" {
+				e = fmt.Sprintf("(+ %s %s)", e, cv)
+			} else {
+				e = fmt.Sprintf("(cons %s %s)", cv, e)
+			}
+		}
+		return e
+	}
 	if s.rec < 0 {
 		for _, p := range ps {
 			sc = sc.with(p, true)
@@ -389,8 +445,8 @@ func (g *gen) version(i, ver int) Ver {
 		if g.r.IntN(3) == 0 {
 			body = append(body, g.stmt(sc, d-1))
 		}
-		body = append(body, g.expr(sc, d, s.ret))
-		return Ver{Params: ps, Body: strings.Join(body, " ")}
+		body = append(body, closed(g.expr(sc, d, s.ret)))
+		return Ver{Params: ps, Body: strings.Join(body, " "), Wrap: wrap}
 	}
 	// recursion on a decreasing counter
 	var counter, dec, pre string
@@ -406,7 +462,7 @@ func (g *gen) version(i, ver int) Ver {
 			sc = sc.with(p, true)
 		}
 	}
-	base := g.expr(sc, d-1, s.ret)
+	base := closed(g.expr(sc, d-1, s.ret))
 	var rargs []string
 	if !g.noargs {
 		rargs = append(rargs, dec)
@@ -460,7 +516,7 @@ func (g *gen) version(i, ver int) Ver {
 	default:
 		body = fmt.Sprintf("(if (<= %s 0) %s (progn %s %s))", counter, base, g.tracer(counter), step)
 	}
-	return Ver{Params: ps, Body: body}
+	return Ver{Params: ps, Body: body, Wrap: wrap}
 }
 
 // genCase builds one program. class: 0 = functions with arguments, 1 = all
